@@ -90,6 +90,12 @@ CLAIMED["C08"] = dict(
     note=TB_COMMON + "The numeric part of the dictionary (numeric update expressions) is covered by C02; the naming hypothesis 'no two (row, col) pairs print to the same __P__ string' is stated, not proved; .n()/str printing are contracts.",
     ref="DESIGN.md 4 C08")
 
+CLAIMED["C05"] = dict(
+    technique="Lean 4 / Mathlib theorem that the companion system reproduces f and its derivatives exactly (via uniqueness of the linear flow) + theorems about a model of the order search with SymPy steps as oracles; recorded-oracle correspondence and 40-digit stepping oracle",
+    text="Proof: companion_flow_exact / function_reproduced - if f^(n) = sum a_k f^(k) holds identically with constant a, then the state (f, f', ..., f^(n-1)) at any T equals exp(T C) applied to the returned initial values, and any sequence of steps totalling T gives the same (steps_compose); order search: order_le_max (<= the documented maximum, re-read from the source: defaults_documented), accept_verified (a shape is returned only after the symbolic verification succeeded - rejection is the only alternative), accept_minimal, reject_means_unverified. Tie: every _is_zero answer from_function receives is recorded and replayed through the model, outcome (order or error kind) compared; the returned dictionary is stepped over random step sequences and compared with f and its derivatives at 40 digits; initial values = f^(k)(0); propagators free of t.",
+    note=TB_COMMON + "diff, solve/inv, simplify and _is_zero are contracts: the verified identity is assumed to hold for all t when SymPy says so (checked numerically per case). Order-4 inputs run in the thorough tier (minutes of SymPy time).",
+    ref="DESIGN.md 4 C05")
+
 NOT_YET = {}
 
 def main():
